@@ -44,7 +44,8 @@ Proof. exact c08_inside. Qed.
 Print Assumptions C08_inside.
 
 (* conversely: a message that is well framed with plain decimal prefixes, decodable text, convertible typed values and
-   walkable PDS / TLV sub-structure is accepted *)
+   walkable PDS / TLV sub-structure is accepted (a merchant-field element: its splitting pattern, if any, sits on text
+   and is inside the modelled regex fragment; a pattern that does not match just adds nothing) *)
 Theorem C08_complete : forall cfg cd hexbm b bm frames,
   (forall n c, cfg_get cfg n = Some c -> f_len c <> None) ->
   hdr hexbm <= length b ->
@@ -59,6 +60,8 @@ Theorem C08_complete : forall cfg cd hexbm b bm frames,
                     | PPDS, VStr t => exists sub, pds_to_dict t = Ok sub
                     | PPDS, _ => False
                     | PICC, VBytes r => f_ptype c = PTStr /\ exists sub, icc_to_dict r = Ok sub
+                    | PDE43, VStr _ => f_de43 c <> D43Unsupported      (* the splitting pattern is in the modelled fragment *)
+                    | PDE43, _ => f_de43 c = D43None                   (* re.match on an int / datetime raises TypeError *)
                     | _, _ => True
                     end) frames ->
   exists d, loads cfg cd hexbm b = Ok d.
